@@ -48,55 +48,67 @@ VOR_POINTS = [
     [[0.0, 0.0], [1.0, 0.5], [0.25, 1.5]],
 ]
 
-RULE = ("histories = one cell space (Moore/von Neumann grid in 1-3 dimensions, hex grid, network, Voronoi; dims <= 3x3, "
-        "torus flag, capacity None/1/2, 0-2 extra int property layers) or one AgentSet; 0-8 operations before the copy "
-        "(moves/placements incl. into full cells, leave, relative moves along connection keys, cell-attribute writes, layer "
-        "writes, fill, add/remove layer, FixedAgent placement, agent.remove(), user attributes on cells, removing the 'empty' "
-        "layer), a copy (deepcopy or pickle, of the space or of the model holding it), then 4-14 "
-        "further operations on either side incl. copies of copies; agent-set histories incl. forgetting all references + gc; "
-        "every side fully observed after every operation (cells, layers, connections, model registry incl. off-grid agents, "
-        "model pointers, model.grid, agent kinds, user attributes); "
-        "non-trivial = contains a copy that succeeded and at least 2 later operations that changed something; "
-        "distinct = by SHA1 of the history")
+RULE = ("histories = one cell space (Moore/von Neumann grid in 1-3 dimensions, hex grid, network of <= 6 nodes, 4 Voronoi point "
+        "sets; dims <= 3x3; torus flag; capacity None/1/2; 0-2 extra int property layers) with its Model, or one AgentSet; 0-8 "
+        "operations before the copy (placements and moves incl. into full cells, leave, move_relative along geometry and "
+        "hand-made keys, cell-attribute and layer writes, fill, add/remove layer, FixedAgent placement, agent.remove() incl. "
+        "FixedAgent.remove(), user attributes on cells, Cell.connect with hand-made keys, remove_property_layer('empty')), a "
+        "copy (deepcopy or pickle, of the space or of the model holding it), then 4-14 further operations on either side incl. "
+        "copies of copies; agent-set histories (add/discard/remove, copies of copies, forgetting all references + gc); every "
+        "side fully observed after every operation (cells, layer values and cell attributes, connections, empties, "
+        "space.agents, model registry incl. off-grid agents, model pointers, model.grid, agent kinds, user attributes, "
+        "hand-made connections, ghost pointers); plus an ORACLE-ONLY stream of 20 (quick) / 100 (thorough) 'exotic' copies: "
+        "float/inf/nan/-0.0/subnormal and 2^60+1 layer values compared bit-exactly, float and 0 capacities, per-cell "
+        "capacities, str/tuple/float node ids, attribute values None/float/Fraction/Decimal/str/tuple/bool/numpy scalar/0-d "
+        "array/list/dict, agents of six classes (subclass of subclass, mixin after the base, __bool__ False, __len__ 0, "
+        "attributes some agents lack), the same graph / PropertyLayer object held by two spaces, abandoned iterators, warm "
+        "neighborhood caches (120-cell chain), a rejected placement before the copy, two copies at the same time, the whole "
+        "scenario twice per process; non-trivial = a copy succeeded and >= 2 later operations changed something; distinct = "
+        "by SHA1 of the history; 14 corpus histories always first; enumerator = 606 scripted cases + 20 exotic")
 TRUSTED_BASE = [
-    "Coq 8.16.1 kernel (coqc); vm_compute used for the non-vacuity examples and for evaluating the model in the correspondence",
-    "no axioms: Print Assumptions reports 'Closed under the global context' for every C19 theorem",
-    "harness/props/C19.py driver+observer, twin builder and Gallina literal printer (T2, differential testing, not a proof)",
-    "harness/tables/c19_copy_code.py + harness/pyexpr.py (T1, code level): translate Cell.__slots__/__getstate__, "
-    "pickle_gridcell/unpickle_gridcell, Grid.__getstate__/__setstate__ loops, AgentSet.__getstate__/__setstate__/_update "
-    "into gen_c19_* definitions on every run; Proofs/CopyBridge.v proves copy_space/copy_set are these pieces",
-    "Model/Copy.v is a hand transcription of Cell.__getstate__, pickle_gridcell/unpickle_gridcell, Grid.__setstate__, "
-    "DiscreteSpace.__setstate__, AgentSet.__getstate__/__setstate__, Cell.add_agent/remove_agent, HasCell.cell setter, "
-    "PropertyDescriptor, add/remove_property_layer; CPython attribute lookup (data descriptor on the class before the "
-    "instance dict), copy.deepcopy / pickle memo semantics and copyreg are modelled, not verified",
-    "connection tables of a fresh space are inputs of the model (computed by the generator's own geometry code, "
+    "Coq 8.16.1 kernel (coqc); vm_compute for the non-vacuity Examples and for evaluating run_world in the correspondence",
+    "no axioms: Print Assumptions reports 'Closed under the global context' for each of the 38 C19 theorems",
+    "harness/props/C19.py: driver + observer, freshly-built-twin oracle, exotic oracle-only stream, Gallina literal "
+    "printer (T2, differential testing, not a proof); exceptions are classified by type and raising function, never by message",
+    "harness/tables/c19_copy_code.py + harness/pyexpr.py (T1, code level, 10 constructs regenerated on every run): "
+    "Cell.__slots__; Cell.__getstate__ (dict part and its filter, slot filter, emptied slots); pickle_gridcell filter and "
+    "reduce shape; unpickle_gridcell legacy filter; Grid.__getstate__ filter; both loops of Grid.__setstate__ as collectors; "
+    "AgentSet.__getstate__/__setstate__/_update; statement skeletons (modulo local names, message texts, docstrings) of "
+    "Cell.add_agent/remove_agent, the glue of pickle/unpickle_gridcell, Grid.__setstate__, DiscreteSpace.__setstate__",
+    "Proofs/CopyBridge.v: copy_space = gen_copy_space and copy_set = gen_copy_set (the model's copy functions ARE the "
+    "translated pieces), slot_actions_bridge, filter lemmas (forall k), loop lemmas (forall lists)",
+    "Model/Copy.v (heap of cells/agents/layers/classes; hand transcription of Cell.add_agent/remove_agent, the HasCell.cell "
+    "setter, move_relative, PropertyDescriptor, add/remove_property_layer, set_property) and Model/CopyWorld.v (Model "
+    "registry, model pointers, FixedAgent, agent.remove, user attributes, hand-made connections, forgetting, removing the "
+    "'empty' layer); CPython attribute lookup (data descriptor before instance dict), copy/pickle memo semantics, copyreg, "
+    "weak references and gc are modelled, not verified",
+    "connection tables of a fresh space are inputs of the model (generator's own geometry code, scipy Delaunay for Voronoi, "
     "cross-checked against the implementation by the correspondence); geometry itself is property C07",
     "Uint63 primitive hash only in scratch Cases files, never under a theorem",
 ]
 ASSUMPTIONS = [
-    "agents are CellAgent/Agent subclasses defined at module level (picklable by reference); the copy's members are held "
-    "strongly before any gc (a bare copied AgentSet emptying itself at gc is weak-reference behaviour, not a finding)",
-    "a rejected move (cell full) is normalised by the driver to 'the agent is off the grid' because the state the rejected "
-    "setter leaves behind is the subject of C06/C18 (DESIGN section 5 row 2), not of C19; a move to the agent's own "
-    "current cell is not performed",
-    "user attributes in the instance __dict__ of cells are observed (kept by Network/Voronoi cells, dropped by grid cells: "
-    "documented behaviour, C19_user_attrs_carried); hand-made connections (Cell.connect after construction, keys ('x', n)) "
-    "are generated, followed by move_relative, and are never carried by a copy (C19_handmade_connections_not_carried): "
-    "they are observed separately from the geometry's connections and excluded from the faithful comparison",
-    "a copy of a SPACE reaches the model object only through an agent standing on the grid; when no agent does, the "
-    "program gives the copied space a new empty model and the off-grid agents of the source are not expected on the copy",
-    "FixedAgent.remove() is performed: the agent is deregistered and taken off the cell's list while its _mesa_cell keeps "
-    "pointing to the cell (documented fixme in the source); such a ghost pointer is observed, exempt from the wiring flag, "
-    "makes every later placement of that agent fail, and is not carried by a copy (the agent is unreachable); a removed "
-    "CellAgent keeps its label in the program's table and can be placed again",
-    "an agent-set side whose model ever created an agent cannot be forgotten: Agent._ids (class-level, keyed by model) "
-    "keeps the model, whose registry keeps the agents",
-    "values written to the bool layer 'empty' are 0/1; extra layers are int layers with small int values",
-    "Voronoi capacities are observed as min(capacity, 99)",
-    "remove_property_layer(name) for name = 'empty' is performed by the separate operation `delempty`; afterwards the "
-    "instance attribute cell.empty is excluded from the faithful / fresh comparisons (a grid copy drops it: "
-    "C19_remove_empty_copy_refuted) but stays in the correspondence",
+    "agents are Agent/CellAgent/FixedAgent subclasses defined at module level (picklable by reference); the copy's members "
+    "are held strongly before any gc unless the history forgets them on purpose",
+    "a rejected move (cell full) is normalised by driver and model to 'the agent is off the grid' (the repaired setter in "
+    "/repo leaves the agent where it was; the model keeps remove-point-add order; with the normalisation the two are "
+    "observationally equal); a move to the agent's own current cell is not performed; the exotic stream continues from the "
+    "un-normalised state after a rejected placement",
+    "a copy of a SPACE reaches the model object only through an agent standing on the grid; when none does, the program gives "
+    "the copied space a new empty model and the off-grid agents of the source are not expected on the copy",
+    "user attributes in the instance __dict__ of cells: carried by Network/Voronoi cells (required by the oracle), dropped by "
+    "grid cells (documented: C19_user_attrs_carried; the oracle is neutral); hand-made connections are never carried "
+    "(C19_handmade_connections_not_carried), observed separately and excluded from the faithful comparison",
+    "FixedAgent.remove() leaves the agent's _mesa_cell pointing to the cell (fixme in the source): such ghost pointers are "
+    "observed, exempt from the wiring flag, and not carried by a copy (the agent is unreachable)",
+    "an agent-set side whose model ever created an agent cannot be forgotten: Agent._ids (class-level, keyed by model) keeps "
+    "the model, whose registry keeps the agents",
+    "after remove_property_layer('empty') the instance attribute cell.empty is excluded from the faithful / fresh "
+    "comparisons (a grid copy drops it: C19_remove_empty_copy_refuted) but stays in the correspondence; "
+    "C19_world_invariant / C19_world_refinement exclude histories with that operation",
+    "in the Gallina model layer values are ints (bool layer 'empty': 0/1); floats, big ints and other value types are "
+    "covered by the oracle-only exotic stream; Voronoi capacities are observed as min(capacity, 99)",
 ]
+
 
 
 # ------------------------------------------------------------------ geometry (generator side, for the model)
@@ -359,8 +371,19 @@ def _gen_aset_case(rng):
     return {"kind": "aset", "stype": "aset", "init": init, "ops": ops}
 
 
+EXOTIC_VARIANTS = ("grid-values", "network-objects", "voronoi", "chain-cached", "agentset")
+
+
+def _exotic_cases(rng, n):
+    out = []
+    for i in range(n):
+        out.append({"kind": "exotic", "stype": "exotic", "variant": EXOTIC_VARIANTS[i % len(EXOTIC_VARIANTS)],
+                    "mech": rng.randrange(2), "root": rng.randrange(2), "salt": rng.randrange(1000), "ops": []})
+    return out
+
+
 def gen_cases(rng, tier):
-    cases = []
+    cases = _exotic_cases(rng, 20 if tier == "quick" else 100)
     n = 600 if tier == "quick" else 12000
     for i in range(n):
         if rng.random() < 0.12:
@@ -372,7 +395,19 @@ def gen_cases(rng, tier):
     return cases
 
 
+def _enumerate_exotic():
+    for v in EXOTIC_VARIANTS:
+        for mech in (0, 1):
+            for root in (0, 1):
+                yield {"kind": "exotic", "stype": "exotic", "variant": v, "mech": mech, "root": root, "salt": 7, "ops": []}
+
+
 def enumerate_cases(tier, broken=False):
+    yield from _enumerate_exotic()
+    yield from _enumerate_main(tier, broken)
+
+
+def _enumerate_main(tier, broken=False):
     """targeted sweep: every space type x small shapes x torus x capacity x extra layer x mechanism x root with a fixed
     script touching the LAST cell of the copy (attribute write, placement into it, relative move) and the original."""
     import random
@@ -683,6 +718,16 @@ def _detached(case, sides):
     return shared
 
 
+def _raised_in(e, funcname):
+    """the innermost frame of the traceback of `e` is a function called `funcname`"""
+    tb = e.__traceback__
+    last = None
+    while tb is not None:
+        last = tb
+        tb = tb.tb_next
+    return last is not None and last.tb_frame.f_code.co_name == funcname
+
+
 def _do_move(a, cell, via=None):
     if a.cell is cell:
         return [-2]
@@ -692,7 +737,7 @@ def _do_move(a, cell, via=None):
         else:
             a.move_relative(via)
     except Exception as e:  # noqa: BLE001
-        if "full" in str(e).lower():
+        if _raised_in(e, "add_agent") and type(e) is Exception:   # by type and position, never by message text
             cur = a.cell
             if cur is not None and any(x is a for x in cur._agents):
                 a.cell = None
@@ -805,7 +850,7 @@ def _apply(case, side, op):
                 sp.create_property_layer(LAYER[nid], default_value=(bool(dv) if nid == 0 else int(dv)),
                                          dtype=(bool if nid == 0 else int))
         except ValueError as e:
-            if "already exists" in str(e) and LAYER[nid] in sp._mesa_property_layers:
+            if _raised_in(e, "add_property_layer") and LAYER[nid] in sp._mesa_property_layers:
                 return [-1, E_EXISTS]
             raise
         return [0]
@@ -1077,6 +1122,364 @@ def _run_space(case):
     return {"obs": obs, "failures": failures}
 
 
+
+# ------------------------------------------------------------------ oracle-only stream: exotic values, classes, sizes
+_XCLS = {}
+
+
+def _exotic_classes():
+    if not _XCLS:
+        import mesa
+        from mesa.discrete_space import CellAgent
+
+        class XBase(CellAgent):
+            def __init__(self, model, vid):
+                super().__init__(model)
+                self.vid = vid
+
+        class XSub(XBase):
+            pass
+
+        class XSubSub(XSub):          # subclass of a subclass
+            kind = "subsub"
+
+        class XMixin:
+            flavour = "mixin"
+
+            def taste(self):
+                return self.flavour
+
+        class XMixAfter(XBase, XMixin):   # mixin placed AFTER the framework base in the MRO
+            pass
+
+        class XFalsy(XBase):              # truth value False
+            def __bool__(self):
+                return False
+
+        class XEmptyLen(XBase):           # len() == 0, hence falsy too
+            def __len__(self):
+                return 0
+
+        class XPlain(mesa.Agent):
+            def __init__(self, model, vid):
+                super().__init__(model)
+                self.vid = vid
+
+        class XPlainFalsy(XPlain):
+            def __bool__(self):
+                return False
+
+        for k in (XBase, XSub, XSubSub, XMixin, XMixAfter, XFalsy, XEmptyLen, XPlain, XPlainFalsy):
+            k.__module__ = __name__
+            k.__qualname__ = k.__name__
+            globals()[k.__name__] = k
+            _XCLS[k.__name__] = k
+    return _XCLS
+
+
+def _xvalues():
+    from decimal import Decimal
+    from fractions import Fraction
+
+    import numpy as np
+
+    return [None, 0.1, float("inf"), -0.0, 2 ** 60 + 1, Fraction(1, 3), Decimal("0.1"), "txt", (1, (2, 3)), True,
+            np.float64(0.3), np.int64(7), np.array(5), [1, [2]], {"k": [1]}]
+
+
+def _canon(v):
+    from decimal import Decimal
+    from fractions import Fraction
+
+    import numpy as np
+
+    if isinstance(v, np.ndarray):
+        return ("ndarray", str(v.dtype), v.shape, v.tobytes())
+    if isinstance(v, np.generic):
+        return ("npscalar", str(v.dtype), v.tobytes())
+    if isinstance(v, float):
+        return ("float", v.hex())
+    if isinstance(v, (bool, int, str, type(None), Fraction, Decimal)):
+        return (type(v).__name__, repr(v))
+    if isinstance(v, (list, tuple)):
+        return (type(v).__name__, tuple(_canon(x) for x in v))
+    if isinstance(v, dict):
+        return ("dict", tuple((_canon(k), _canon(x)) for k, x in v.items()))
+    return ("obj", type(v).__qualname__)
+
+
+def _xagent(a):
+    attrs = tuple((k, _canon(v)) for k, v in sorted(a.__dict__.items()) if k not in ("model", "_mesa_cell"))
+    return (type(a).__module__ + "." + type(a).__qualname__, attrs)
+
+
+def _xmutables(o):
+    return [id(v) for v in vars(o).values() if isinstance(v, (list, dict)) or type(v).__name__ == "ndarray"]
+
+
+def _xdescribe(sp, model):
+    """everything the statement talks about, with types, bit patterns and classes, free of identities"""
+    d = {}
+    cells = list(sp._cells.values())
+    where = {id(c): _canon(c.coordinate) for c in cells}
+    d["cells"] = tuple((_canon(k), _canon(c.coordinate), _canon(c.capacity), tuple(_xagent(a) for a in c._agents),
+                        tuple((kk, _canon(v)) for kk, v in sorted(c.__dict__.items()) if kk != "neighborhood"),
+                        tuple(sorted((repr(_canon(kk)), where.get(id(t), "FOREIGN")) for kk, t in c.connections.items())))
+                       for k, c in sp._cells.items())
+    layers = getattr(sp, "_mesa_property_layers", None)
+    if isinstance(layers, dict):
+        d["layers"] = tuple((n, str(l.data.dtype), l.data.shape, l.data.tobytes()) for n, l in layers.items())
+        d["attrs"] = tuple(tuple(_canon(getattr(c, n)) for n in layers) for c in cells)
+    d["registry"] = tuple(_xagent(a) for a in model._agents) if model is not None else ()
+    d["api"] = tuple(_xagent(a) for a in model.agents) if model is not None else ()
+    d["empties"] = tuple(sorted(repr(_canon(c.coordinate)) for c in sp.empties))
+    if hasattr(sp, "G"):
+        d["graph"] = (tuple(sorted(map(repr, sp.G.nodes))), tuple(sorted(repr(tuple(sorted(map(repr, e)))) for e in sp.G.edges)))
+    return d
+
+
+def _xnbhd_ok(sp):
+    """cached neighbourhoods of a side consist of its own cells and show the agents that are in them now"""
+    own = {id(c) for c in sp._cells.values()}
+    for c in sp._cells.values():
+        nb = list(c.neighborhood)
+        if any(id(x) not in own for x in nb):
+            return f"cell {c.coordinate!r}: neighborhood contains a cell of another space"
+        if sorted(id(a) for a in c.neighborhood.agents) != sorted(id(a) for x in nb for a in x._agents):
+            return f"cell {c.coordinate!r}: neighborhood.agents is not what stands in the neighbouring cells"
+    return None
+
+
+def _xbuild(case):
+    """(space, model, second space sharing caller-owned objects or None, name of the space class)"""
+    import warnings
+
+    import mesa
+    import networkx as nx
+    import numpy as np
+    from mesa.discrete_space import Network, OrthogonalVonNeumannGrid, PropertyLayer, VoronoiGrid
+
+    X = _exotic_classes()
+    vals = _xvalues()
+    v = case["variant"]
+    salt = case["salt"]
+    m = mesa.Model(seed=1)
+    other = None
+    with warnings.catch_warnings():
+        warnings.simplefilter("ignore")
+        if v == "grid-values":
+            cap = [2.0, 1.5, 0, 3, None][salt % 5]                     # float capacity, capacity 0 (= unlimited)
+            sp = OrthogonalVonNeumannGrid((3, 2), torus=bool(salt % 2), capacity=cap, random=m.random)
+            sp.create_property_layer("temp", default_value=0.1, dtype=float)
+            sp._mesa_property_layers["temp"].data[...] = np.array([[0.1, float("inf")], [-0.0, float("nan")], [1 / 3, 1e-310]])
+            sp.create_property_layer("big", default_value=2 ** 60 + 1, dtype=np.int64)
+            shared = PropertyLayer("shared", (3, 2), default_value=0.7, dtype=float)    # one layer object in two grids
+            sp.add_property_layer(shared)
+            other = OrthogonalVonNeumannGrid((3, 2), torus=False, capacity=None, random=m.random)
+            other.add_property_layer(shared)
+            list(sp._cells.values())[1].capacity = 1                  # per-cell difference
+        elif v == "network-objects":
+            g = nx.Graph()
+            g.add_edges_from([("a", ("b", 1)), (("b", 1), 3), (3, 2.5), ("a", 3)])
+            g.add_node("lonely")
+            sp = Network(g, capacity=[None, 2, 1.5][salt % 3], random=m.random)
+            other = Network(g, capacity=None, random=m.random)          # the SAME graph object handed in twice
+            for i, c in enumerate(sp._cells.values()):
+                setattr(c, "note", vals[(i + salt) % len(vals)])
+                setattr(c, "stack", [i, [salt]])
+        elif v == "voronoi":
+            sp = VoronoiGrid(VOR_POINTS[salt % len(VOR_POINTS)], capacity=None, random=m.random)
+        else:   # chain-cached: a long path, every neighbourhood has been read
+            sp = Network(nx.path_graph(120), capacity=None, random=m.random)
+    m.grid = sp
+    cells = list(sp._cells.values())
+    classes = [X["XBase"], X["XSub"], X["XSubSub"], X["XMixAfter"], X["XFalsy"], X["XEmptyLen"]]
+    n_agents = 2 if v == "chain-cached" else 6
+    for i in range(n_agents):
+        a = classes[(i + salt) % len(classes)](m, i + 1)
+        if i % 2 == 0:                                               # some agents lack the attribute others have
+            a.payload = vals[(i + salt) % len(vals)]
+        a.history = [i]
+        try:
+            a.cell = cells[(i * 2 + salt) % len(cells)]
+        except Exception as e:  # noqa: BLE001
+            if not (_raised_in(e, "add_agent") and type(e) is Exception):
+                raise
+            # a rejected placement: the history continues from the state the error path left behind
+    off = X["XBase"](m, 99)                                          # never placed
+    off.history = ["off-grid"]
+    it = iter(sp.agents)                                             # abandoned iterators / generators
+    next(it, None)
+    it2 = iter(sp.all_cells)
+    next(it2, None)
+    for c in cells if v in ("network-objects", "voronoi", "chain-cached") else cells[:2]:
+        c.neighborhood                                               # warm the per-cell cache
+        c.get_neighborhood(radius=2, include_center=True)
+    return sp, m, other, type(sp).__name__, (it, it2)
+
+
+def _xcopy(obj, mech):
+    import copy
+    import pickle
+
+    return copy.deepcopy(obj) if mech == 0 else pickle.loads(pickle.dumps(obj))  # noqa: S301
+
+
+def _run_exotic(case):
+    import gc
+    import warnings
+
+    failures = []
+
+    def add(cls, key, what):
+        failures.append({"key": f"C19/{cls}/exotic/{key}", "op": 0, "what": f"[{case['variant']}, {MECH[case['mech']]}, "
+                         f"root={'space' if case['root'] == 0 else 'model'}, salt={case['salt']}] {what}"})
+
+    if case["variant"] == "agentset":
+        _run_exotic_aset(case, add)
+        return {"obs": [], "failures": failures, "model": False}
+    gc.disable()
+    try:
+        with warnings.catch_warnings():
+            warnings.simplefilter("ignore")
+            snapshots = []
+            for rnd in range(2):        # twice in one process: class-level state left by the first run must not matter
+                sp, m, other, cls, _its = _xbuild(case)
+                before = _xdescribe(sp, m)
+                before_other = _xdescribe(other, None) if other is not None else None
+                obj = sp if case["root"] == 0 else m
+                try:
+                    c1 = _xcopy(obj, case["mech"])
+                    c2 = _xcopy(obj, case["mech"])          # a second copy at the same logical time
+                except Exception as e:  # noqa: BLE001
+                    add(cls, "copy-raises", f"copying a {cls} with {len(sp._cells)} cells raised {type(e).__name__}: {str(e)[:120]}")
+                    break
+                sp1, sp2 = (c1, c2) if case["root"] == 0 else (c1.grid, c2.grid)
+                ags = [a for c in sp1._cells.values() for a in c._agents]
+                m1 = c1 if case["root"] == 1 else (ags[0].model if ags else None)
+                ags2 = [a for c in sp2._cells.values() for a in c._agents]
+                m2 = c2 if case["root"] == 1 else (ags2[0].model if ags2 else None)
+                d1, d2 = _xdescribe(sp1, m1), _xdescribe(sp2, m2)
+                for aspect in before:
+                    if aspect in ("registry", "api") and m1 is None:
+                        continue
+                    if d1[aspect] != before[aspect]:
+                        add(cls, f"unfaithful-{aspect}", f"{aspect} of the copy differ from the original")
+                    if d2[aspect] != d1[aspect]:
+                        add(cls, f"second-copy-differs-{aspect}", f"two copies taken one after the other differ in {aspect}")
+                if _xdescribe(sp, m) != before:
+                    add(cls, "copy-changed-the-original", "the original reads differently after it was copied")
+                # no shared mutable object
+                mine = {id(sp), id(m)} | {id(c) for c in sp._cells.values()} | {id(a) for a in m._agents}
+                for a in m._agents:
+                    mine |= set(_xmutables(a))
+                for c in sp._cells.values():
+                    mine |= set(_xmutables(c)) | {id(c._agents)}
+                theirs = {id(sp1)} | {id(c) for c in sp1._cells.values()} | {id(a) for a in ags} | {id(c._agents) for c in sp1._cells.values()}
+                for a in ags:
+                    theirs |= set(_xmutables(a))
+                for c in sp1._cells.values():
+                    theirs |= set(_xmutables(c))
+                if hasattr(sp, "G"):
+                    mine.add(id(sp.G))
+                    theirs.add(id(sp1.G))
+                if mine & theirs:
+                    add(cls, "not-detached-shared-object", "the copy shares a mutable object (cell, agent, list/dict attribute, graph) with the original")
+                why = _xnbhd_ok(sp1)
+                if why:
+                    add(cls, "cached-neighborhood-stale", why)
+                # mutate the copy: nothing of the original (or of the other holder of caller-owned objects) may move
+                cells1 = list(sp1._cells.values())
+                if ags:
+                    try:
+                        ags[0].cell = None
+                        ags[0].cell = cells1[-1]
+                    except Exception as e:  # noqa: BLE001
+                        if not (_raised_in(e, "add_agent") and type(e) is Exception):
+                            raise
+                    ags[0].history.append("moved on the copy")
+                    if isinstance(getattr(ags[0], "payload", None), (list, dict)):
+                        ags[0].payload.clear()
+                cells1[0].note = "changed on the copy"
+                if hasattr(cells1[0], "stack"):
+                    cells1[0].stack.append("copy")
+                for lay in (getattr(sp1, "_mesa_property_layers", None) or {}).values():
+                    lay.data[...] = 0
+                if hasattr(sp1, "G"):
+                    sp1.G.add_node("only in the copy")
+                why = _xnbhd_ok(sp1)
+                if why:
+                    add(cls, "cached-neighborhood-stale", "after a move on the copy, " + why)
+                if _xdescribe(sp, m) != before:
+                    add(cls, "not-independent", "mutating the copy (move, attribute, layer, graph, list payload) changed the original")
+                if other is not None and _xdescribe(other, None) != before_other:
+                    add(cls, "not-independent", "mutating the copy changed ANOTHER space that shares a caller-owned object with the original")
+                snap2 = _xdescribe(sp2, m2)
+                cells0 = list(sp._cells.values())
+                cells0[0].note = "changed on the original"
+                for lay in (getattr(sp, "_mesa_property_layers", None) or {}).values():
+                    lay.data[...] = 1
+                if _xdescribe(sp2, m2) != snap2:
+                    add(cls, "not-independent", "mutating the original changed a copy")
+                snapshots.append(d1)
+            if len(snapshots) == 2 and snapshots[0] != snapshots[1]:
+                add(cls, "depends-on-prior-history", "the same construction and copy, repeated in the same process, gives a different copy")
+    except Exception as e:  # noqa: BLE001
+        add("driver", "unexpected-exception", f"{type(e).__name__}: {str(e)[:200]}")
+    finally:
+        gc.enable()
+    return {"obs": [], "failures": failures, "model": False}
+
+
+def _run_exotic_aset(case, add):
+    import mesa
+    from mesa.agent import AgentSet
+
+    X = _exotic_classes()
+    vals = _xvalues()
+    salt = case["salt"]
+    try:
+        m = mesa.Model(seed=1)
+        classes = [X["XPlain"], X["XPlainFalsy"], X["XPlain"]]
+        agents = []
+        for i in range(7):
+            a = classes[(i + salt) % 3](m, i + 1)
+            if i % 2:
+                a.payload = vals[(i + salt) % len(vals)]
+            a.history = [i]
+            agents.append(a)
+        order = agents[salt % 7:] + agents[:salt % 7]
+        for aset in (AgentSet(order, random=m.random), AgentSet([], random=m.random),
+                     AgentSet(order, random=m.random).select(lambda a: a.vid % 2 == 0)):
+            gen = iter(aset)                                   # an abandoned generator over the set
+            next(gen, None)
+            before = tuple(_xagent(a) for a in aset)
+            c1 = _xcopy(aset, case["mech"])
+            keep1 = list(c1)
+            c2 = _xcopy(aset, case["mech"])
+            keep2 = list(c2)
+            if tuple(_xagent(a) for a in keep1) != before:
+                add("AgentSet", "unfaithful-members", "members (order, classes incl. falsy ones, attributes with their types) of the copy differ")
+            if tuple(_xagent(a) for a in keep2) != tuple(_xagent(a) for a in keep1):
+                add("AgentSet", "second-copy-differs-members", "two copies taken one after the other differ")
+            if len(c1) != len(aset) or any((a in c1) for a in aset):
+                add("AgentSet", "not-detached-shared-object", "len differs or the copy contains an agent object of the original")
+            if c1.random is aset.random or c1.random.getstate() != aset.random.getstate():
+                add("AgentSet", "unfaithful-generator", "random generator shared or not in the original's state")
+            if keep1:
+                keep1[0].history.append("x")
+                c1.discard(keep1[-1])
+            if tuple(_xagent(a) for a in aset) != before:
+                add("AgentSet", "not-independent", "mutating the copy changed the original")
+            nested = _xcopy(c1, 1 - case["mech"])              # copy of a copy, other mechanism
+            keepn = list(nested)
+            if tuple(_xagent(a) for a in keepn) != tuple(_xagent(a) for a in c1):
+                add("AgentSet", "unfaithful-members", "copy of a copy differs")
+            del gen
+    except Exception as e:  # noqa: BLE001
+        add("AgentSet", "unexpected-exception", f"{type(e).__name__}: {str(e)[:200]}")
+
+
 def _run_aset(case):
     import copy
     import gc
@@ -1227,6 +1630,8 @@ def _run_aset(case):
 
 
 def run_impl(case):
+    if case["kind"] == "exotic":
+        return _run_exotic(case)
     if case["kind"] == "aset":
         return _run_aset(case)
     return _run_space(case)
@@ -1285,7 +1690,14 @@ def _coq_op(op):
     raise ValueError(k)
 
 
+def _coq_dummy():
+    return ("{| wc_case := {| c_space := false; c_grid := false; c_caps := []; c_conn := []; c_layers := []; "
+            "c_set := []; c_ops := [] |}; wc_ops := [] |}")
+
+
 def coq_case(case):
+    if case["kind"] == "exotic":
+        return _coq_dummy()
     ops = L.lst([_coq_wop(o) for o in case["ops"]])
     return f"{{| wc_case := {_coq_inner_case(case)}; wc_ops := {ops} |}}"
 
@@ -1302,6 +1714,8 @@ def _coq_inner_case(case):
 
 
 def op_kinds(case):
+    if case["kind"] == "exotic":
+        return [f"exotic/{case['variant']}/{MECH[case['mech']]}/{'space' if case['root'] == 0 else 'model'}"]
     out = []
     for op in case["ops"]:
         if op[0] == "copy":
@@ -1321,6 +1735,8 @@ def _state_part(o):
 
 
 def nontrivial(case):
+    if case["kind"] == "exotic":
+        return True
     obs = case.get("_obs", [])
     copied = False
     changes = 0
@@ -1332,21 +1748,30 @@ def nontrivial(case):
     return copied and changes >= 2
 
 
-LEVEL_TEXT = ("Machine-checked Coq theorems over a heap model (cells, agents, property layers, cell classes with descriptor "
-              "tables) of Mesa's copy mechanism: copy_space follows Cell.__getstate__, the copyreg hook and "
-              "Grid/DiscreteSpace.__setstate__.  Proved for every well-formed source state: the copy has the same abstract "
-              "state (C19_faithful), every cell attribute of the copy reads and writes the copy's own layer (C19_attrs_wired), "
-              "every location of the copy is fresh (C19_fresh, C19_detached), no existing side changes (C19_source_untouched); "
-              "for every history of operations on any number of sides incl. copies of copies the separation/wiring "
-              "invariants hold (C19_invariant, C19_invariant2, C19_detached_always, C19_wired_always, "
-              "C19_attrs_wired_always) and a history not addressed to a side leaves its abstract state and observation "
-              "unchanged (C19_independent, C19_independent_obs); every history of a side refines an abstract machine over "
-              "the abstract state (C19_refinement), so two sides in the same abstract state - a copy and a freshly built "
-              "space - show the same for ever (C19_behaves_fresh, C19_copy_behaves_like_source); AgentSet copies keep "
-              "members and order, are new objects and independent (C19_agentset_*).  The model is tied to the code by "
-              "differential evaluation on random and exhaustive small histories (T2); an independent oracle (freshly "
-              "built twin space, identity checks) states the property on the implementation and supplies the failing input.")
-LEVEL_NOTE = ("Theorems are about the model. Trusted: Coq kernel, the driver/observer, CPython attribute lookup, copy/pickle memo "
-              "semantics as modelled. Geometry (which connections a fresh space has) is an input table (property C07). No axioms.")
-TECHNIQUE = "Coq proof (heap invariants by induction over op lists, closed under global context) + vm_compute correspondence + twin oracle"
+LEVEL_TEXT = ("38 machine-checked Coq theorems (all closed under the global context, each with a vm_compute Example) over a heap "
+              "model of Mesa's copy mechanism (cells, agents, property layers, cell classes with descriptor tables; "
+              "copy_space follows Cell.__getstate__, the copyreg hook, Grid/DiscreteSpace.__setstate__) and a world layer "
+              "(Model registry, model pointers, FixedAgents, removals, user attributes, hand-made connections).  For every "
+              "well-formed source: the copy has the same abstract state (C19_faithful), is well formed, every cell attribute "
+              "reads/writes the copy's own new layer (C19_attrs_wired), all its locations are new (C19_fresh, C19_detached), no "
+              "existing side changes.  For ALL histories on any number of sides incl. copies of copies: the invariants hold "
+              "(C19_invariant, C19_invariant2, C19_world_invariant), sides never influence each other (C19_independent*), "
+              "every history refines a heap-free abstract machine, so a copy behaves like a freshly built space for ever "
+              "(C19_refinement, C19_behaves_fresh, C19_side_history, C19_world_refinement); copying the model carries the "
+              "registry incl. off-grid agents, pointers and grid (C19_model_copy); what is and is not carried is stated "
+              "(C19_user_attrs_carried, C19_handmade_connections_not_carried, C19_remove_empty_*); AgentSet copies keep "
+              "members and order, are new objects, independent, and weakly held (C19_agentset_*).  Code-level T1: 10 "
+              "constructs of the copy hooks are re-translated from the working tree on every run and bridge lemmas prove "
+              "copy_space / copy_set ARE the translated code (C19_source_code_is_model, C19_faithful_of_source, ...).  T2: "
+              "differential evaluation of run_world on random, corpus and enumerated histories; an independent oracle "
+              "(freshly built twin, identity checks, exotic value/class/size stream) supplies failing inputs.")
+LEVEL_NOTE = ("Theorems are about the model. Trusted: Coq kernel, pyexpr/tables translators, driver/observer, CPython attribute "
+              "lookup, copy/pickle memo semantics, weak references as modelled. Geometry is an input table (C07). Oracle-only: "
+              "non-int values, exotic classes, large chains. Defects repaired: C19-1 (Grid copies: one class per cell, "
+              "descriptors on (0,0) only, non-2-D KeyError), C19-2 (deepcopy built the first occupied cell twice); found in "
+              "round 5, patch fixes/C19-3: a Network/Voronoi whose cached neighborhoods were read cannot be copied "
+              "(RecursionError from ~100 cells; key C19/Network/exotic/copy-raises). No axioms.")
+TECHNIQUE = ("Coq proof (heap invariants and refinement by induction over op lists, closed under global context) + code-level "
+             "translation with bridge lemmas (T1) + vm_compute correspondence (T2) + twin / exotic oracle")
+
 DESIGN_REF = "DESIGN.md section 4, C19"
